@@ -78,6 +78,20 @@ def build(m: Dict[str, Any], note_as_object: bool = False, **db_kwargs):
     return db
 
 
+def build_abstract(m: Dict[str, Any], **db_kwargs):
+    """built through the API with the public constructor flag abstract=True (the flag of many-to-many join tables) on
+    every table that holds no inline foreign key: for such a table the flag changes nothing the properties speak about"""
+    db = build(m, **db_kwargs)
+    holders = set()
+    for r in m['refs']:
+        if r['inline'] and r['type'] != '<>':
+            holders.add(r['t2'] if r['type'] == '<' else r['t1'])
+    for i, t in enumerate(db.tables):
+        if (i + 1) not in holders:
+            t.abstract = True
+    return db
+
+
 def build_morphed(m: Dict[str, Any], aspects=('names', 'types', 'settings', 'refs'), **db_kwargs):
     """The same final content reached the long way round: a database is built from a DIFFERENT content (other table and
     column names, types, flags, defaults, notes, actions), rendered to SQL and DBML (whatever a renderer or a model object
